@@ -337,8 +337,40 @@ static void c12_groups(rng& g)
     }
 }
 
+// a target that is *exactly* the relative error reached after two iterations: the first run (no target) measures it, the second run - the
+// same ranks, the same reduction order - must stop there on every rank (the decision is the same expression everywhere)
+template <typename K, typename T>
+static void c12_exact_target(rng& g, int world)
+{
+    typedef typename K::chk C;
+    std::vector<std::size_t> plan(4, 200);
+    C start = K::fresh(0);
+    unsigned long long seed = 777 + g.below(1000);
+    std::string file = scratch + "/c12x.chk";
+    C measured = start;
+    vt_mpi_run(world, seed, [&](MPI_Comm comm, int rank) {
+        iter_no = 0;
+        C r = K::mpi_run(comm, s_ordinary, 0, start, plan, hep::mpi_callback<C>(hep::callback_mode::silent, file, T()));
+        if (rank == 0) measured = r;
+    }, false);
+    auto two = hep::accumulate<hep::weighted_with_variance>(measured.results().begin(), measured.results().begin() + 2);
+    T target = two.error() / std::fabs(two.value());
+    ev("Run").i("run", run_id++).s("kind", K::name()).s("T", type_name<T>::get()).s("shape", "ordinary").a("plan", plan).i("n0", 0)
+        .i("world", world).i("builtin", 1).i("targetPos", 1).i("mode", 0).i("exactTarget", 1).emit();
+    vt_mpi_run(world, seed, [&](MPI_Comm comm, int rank) {
+        clog_.on = true; clog_.rank = rank;
+        iter_no = 0;
+        C r = K::mpi_run(comm, s_ordinary, 0, start, plan, observed_mpi_builtin<T, C>{hep::mpi_callback<C>(hep::callback_mode::silent, file, target), target});
+        clog_.on = false;
+        ev("Returned").i("rank", rank).i("n", (long long) r.results().size()).emit();
+    }, false);
+    ev("RunEnd").emit();
+}
+
 template <typename T> static void c12_family(rng& g, bool thorough)
 {
+    c12_exact_target<plain_k<T>, T>(g, 2);
+    c12_exact_target<vegas_k<T>, T>(g, 3);
     c12_groups<plain_k<T>, T>(g);
     c12_groups<vegas_k<T>, T>(g);
     // user callbacks returning false at every position, fresh and resumed, serial and MPI
